@@ -9,7 +9,7 @@ Record observation := {
   ob_out : nat;                                   (* 0 = ok, 1 = hang (deadlock or spin), 2 = panic *)
   ob_log : list (nat * nat * ev);                 (* (encoded uid, driver action index, event) *)
   ob_tap : list (nat * ev);
-  ob_probes : list (nat * nat * nat * bool);
+  ob_probes : list (nat * nat * nat * bool * nat * nat);
   ob_snaps : list (nat * list bool * list nat) }.
 
 Definition obs_of_run (r : list req * world) : observation :=
